@@ -34,6 +34,12 @@ package ast
 //@   loop 1 invariant 0 <= rangeindex + 1 && rangeindex + 1 <= len(a.Args) && len(a.Args) == len(o.Args)
 //@   loop 1 invariant forall i int :: 0 <= i && i < rangeindex + 1 ==> termEq(a.Args[i], o.Args[i])
 
+// C08: the hash of a function application is computed from exactly what Equals compares - the function SYMBOL and the
+// arguments (the declared arity, -1 for variadic functions, is not compared and must not be hashed).
+//@ func (a ApplyFn) Hash()
+//@   opt nosafety
+//@   guard call hashTerm: arg0 == a.Function.Symbol && arg1 == a.Args
+
 // Hash is a deterministic function of the atom (its formula is deliberately not specified).
 //@ func (a Atom) Hash()
 //@   pure
